@@ -215,6 +215,15 @@ func (fr *Frame) step(in ssa.Instruction) {
 		o := it.NewArrayObject(x.Type().Underlying().(*types.Slice).Elem(), c, fr.fn.Name()+".make", false)
 		fr.regs[x] = SliceV{Arr: o.Root, Lo: 0, Len: TInt(int64(n)), Cap: c}
 	case *ssa.FieldAddr:
+		if sel, isSel := fr.get(x.X).(PtrSel); isSel {
+			fr.regs[x] = sel.mapSel(func(c *Cell) *Cell {
+				if c.Rep != nil {
+					it.materialise(c)
+				}
+				return c.Kids[x.Field]
+			})
+			return
+		}
 		p, ok := fr.get(x.X).(Ptr)
 		if !ok {
 			it.abortf("field of %s in %s", show(fr.get(x.X)), fr.fn)
@@ -253,6 +262,30 @@ func (fr *Frame) step(in ssa.Instruction) {
 				it.event("global-store", fr.fn, x.Pos(), "store to package-level variable %s outside init", p.C.Path())
 			}
 			it.storeValue(p.C, fr.get(x.Val))
+		case PtrSel:
+			// conditional store: each alternative keeps its value unless it is the one selected
+			v := fr.get(x.Val)
+			olds := make([]Value, len(p.Alts))
+			for i, c := range p.Alts {
+				olds[i] = it.loadValue(c)
+			}
+			for i, c := range p.Alts {
+				nv := v
+				// selected iff cond_i holds and no earlier condition does
+				if p.Top != nil {
+					nv = it.mergeValue(nil, *p.Top, v, olds[i])
+				} else {
+					selected := p.Conds[i]
+					if i == len(p.Alts)-1 {
+						selected = TInt(1)
+					}
+					for j := 0; j < i; j++ {
+						selected = selected.Mul(TInt(1).Sub(p.Conds[j]))
+					}
+					nv = it.mergeValue(selected, PredV{selected}, v, olds[i])
+				}
+				it.storeValue(c, nv)
+			}
 		default:
 			it.abortf("store through %s in %s", show(fr.get(x.Addr)), fr.fn)
 		}
@@ -323,6 +356,15 @@ func (fr *Frame) unop(x *ssa.UnOp) Value {
 	v := fr.get(x.X)
 	switch x.Op {
 	case token.MUL:
+		if sel, isSel := v.(PtrSel); isSel {
+			n := len(sel.Alts)
+			acc := it.loadValue(sel.Alts[n-1])
+			for i := n - 2; i >= 0; i-- {
+				p, cv := sel.condValue(i)
+				acc = it.mergeValue(p, cv, it.loadValue(sel.Alts[i]), acc)
+			}
+			return it.applyAssume(acc)
+		}
 		p, ok := v.(Ptr)
 		if !ok {
 			if t, isTop := v.(Top); isTop {
@@ -377,6 +419,12 @@ func (fr *Frame) indexAddr(x *ssa.IndexAddr) Value {
 	iv := fr.get(x.Index)
 	i, ok := it.constInt(iv)
 	if !ok {
+		if sel, isSel := fr.selectElem(base, iv); isSel {
+			if t, isTop := iv.(Top); isTop && t.Taint {
+				it.event("tainted-select", fr.fn, x.Pos(), "an element is selected by a secret index")
+			}
+			return sel
+		}
 		if t, isTop := iv.(Top); isTop && t.Taint {
 			it.event("tainted-index", fr.fn, x.Pos(), "memory index depends on a secret value")
 		} else {
@@ -431,6 +479,16 @@ func (fr *Frame) slice(x *ssa.Slice) Value {
 	if x.Low != nil {
 		l, ok := it.constInt(fr.get(x.Low))
 		if !ok {
+			// arr[n-len(b):] of a whole array, the destination of the left-padding copy idiom
+			if lt, isT := fr.get(x.Low).(TermV); isT && x.High == nil && x.Max == nil {
+				if bp, isP := base.(Ptr); isP && len(bp.C.Kids) > 0 {
+					low := it.ApplyTerm(lt.T)
+					if lo, hi := low.Bounds(); lo.Sign() < 0 || hi.Cmp(big.NewInt(int64(len(bp.C.Kids)))) > 0 {
+						it.event("bounds", fr.fn, x.Pos(), "slice bound %s not provably within [0,%d] (possible run-time panic)", low, len(bp.C.Kids))
+					}
+					return OffSlice{Arr: bp.C, Off: low}
+				}
+			}
 			it.abortf("symbolic low bound of a slice expression in %s", fr.fn)
 		}
 		lo = l
@@ -579,6 +637,60 @@ func (it *Interp) applyBind(v Value) Value {
 	}
 	return it.applyAssume(v)
 }
+
+// selectElem resolves base[iv] for an index that is not a constant: the element cells of a small array (at most 16
+// elements) selected by the index value.
+func (fr *Frame) selectElem(base Value, iv Value) (PtrSel, bool) {
+	it := fr.it
+	var cells []*Cell
+	switch b := base.(type) {
+	case Ptr:
+		if b.C.Rep != nil {
+			it.materialise(b.C)
+		}
+		cells = b.C.Kids
+	case SliceV:
+		n, isC := it.ApplyTerm(b.Len).IsConst()
+		if !isC || b.Lo+int(n.Int64()) > len(b.Arr.Kids) {
+			return PtrSel{}, false
+		}
+		if b.Arr.Rep != nil {
+			it.materialise(b.Arr)
+		}
+		cells = b.Arr.Kids[b.Lo : b.Lo+int(n.Int64())]
+	default:
+		return PtrSel{}, false
+	}
+	if len(cells) < 2 || len(cells) > 16 {
+		return PtrSel{}, false
+	}
+	switch v := iv.(type) {
+	case Top:
+		t := v
+		return PtrSel{Alts: cells, Top: &t}, true
+	case TermV, PredV:
+		t, _ := asTerm(v)
+		t = it.ApplyTerm(t)
+		lo, hi := t.Bounds()
+		if lo.Sign() < 0 || hi.Cmp(big.NewInt(int64(len(cells)-1))) > 0 {
+			return PtrSel{}, false // possibly out of range: not a selection
+		}
+		sel := PtrSel{}
+		for i, c := range cells {
+			sel.Alts = append(sel.Alts, c)
+			sel.Conds = append(sel.Conds, EQ(t, TInt(int64(i))))
+		}
+		return sel, true
+	}
+	return PtrSel{}, false
+}
+
+// OffSlice is arr[Off:] of a whole array with a symbolic offset; only copy understands it.
+type OffSlice struct {
+	Arr *Cell
+	Off *Term
+}
+
 
 // ClosureV is a function literal with its captured variables.
 type ClosureV struct {
